@@ -18,7 +18,8 @@ PROPS = {
                 'list has >1 item or the byte string >1 byte; distinct = distinct input lines (hashed) among those'
                 ' Retention: the stream returned by the previous join / uTP encode is compared again after the next one. Decoders get exact-capacity inputs; a panic is an outcome.'
                 ' hugeenc: lists [2^28], [3, 2^28], [2^28-1] (thorough also [2^28, 2^28+1], [2^28, 0, 5]) of all-zero items: stream size and every length prefix are compared with Fr.streamLen / Leb of the lengths, value positions and the round trip are checked by the harness (about 1.3 GB peak).'
-                ' concframing: 8 goroutines join and split their own lists at once (300 rounds; thorough 5000): every result is what the same call gives alone.',
+                ' concframing: 8 goroutines join and split their own lists at once (300 rounds; thorough 5000): every result is what the same call gives alone.'
+                ' Lists of 60..71 items; 63, 64, 65, 66 and 100 well-formed items followed by four malformed tails through every decoder.',
         'trusted': ['wabin leb128 (Go dependency) is re-modelled in Lean (Fr.enc/Fr.dec) and compared on every run'],
         'assumptions': ['Go slices are modelled as List Nat with every element < 256', 'item lengths < 2^32 (Go truncates uint32(len))'],
         'explanation': 'theorems over Fr.encContents/decContents/utpEnc/utpDec for all lists and all byte strings; '
@@ -75,7 +76,8 @@ PROPS = {
                 ' Two stores in one process: B holds 5 small items, A is filled until it prunes; B is unchanged, still accepts, and a store opened afterwards starts at the maximum radius.'
                 ' Corpus histories replayed first (ids of one repeated byte, zero node id): a second prune that must empty the store after the radius has shrunk; one id put again and again, pruned, flushed and reopened; refused puts between accepted puts that land at, above and below the capacity; the counter at exactly 95 % of the capacity at a reopen; exactly at the capacity.'
                 ' Clause pruned_item_stays_pruned on every put and reopen (see C04).'
-                ' The offer-filter site runs here as well (the offer scenario of C09: verdicts of the real handleOffer for both wire versions on nodes with no slots / plenty / a full validation queue).',
+                ' The offer-filter site runs here as well (the offer scenario of C09: verdicts of the real handleOffer for both wire versions on nodes with no slots / plenty / a full validation queue).'
+                ' Clause refused_although_below_radius_in_both_byte_orders: a refusal while the radius is at its maximum.',
         'trusted': ['uint256 arithmetic modelled by Nat'],
         'assumptions': ['32-byte content ids'],
         'explanation': 'theorems about the ideal (big-endian) model over all histories; the real store is compared exactly with the '
@@ -109,7 +111,8 @@ PROPS = {
         'rule': 'operation sequences (add found/inbound/forced-live, delete, revalidation timer, revalidation answers delivered in any order (dead / alive / alive with a new record), lookup feedback incl. runs of consecutive failures) against the real portalwire.Table with a fake transport and a simulated clock; node ids from pools of 34/90 keys so that buckets fill and ids repeat; addresses from three public /24s (one crowded in every fourth sequence), LAN, loopback and missing; sequence numbers 1..3; after every operation the full snapshot (entries with record/credit/verified flag/list, replacement order, per-bucket and table-wide /24 counters, fast/slow lists, active requests) must equal the model; non-trivial = the table held at least 8 entries; distinct = distinct operation lines among those'
                 ' A quarter of the records of known ids keep the address of the previous record and move only the port or only the sequence number.'
                 ' A seventh of the public addresses are announced in the v4-mapped IPv6 form (another address, /24 = ::/24), a third of the address-keeping updates switch between the two forms; a ninth of the records carry sequence numbers from {0, 2^32, 2^63-1, 2^63, 2^64-2, 2^64-1}. A second, shorter pass runs with go-ethereum metrics enabled.'
-                " Every third sequence runs a table configured with 1..4 boot nodes (a third of them the local node's own record): op loadseeds = the seed-loading step at construction and, with probability 1/25 per operation, of a refresh.",
+                " Every third sequence runs a table configured with 1..4 boot nodes (a third of them the local node's own record): op loadseeds = the seed-loading step at construction and, with probability 1/25 per operation, of a refresh."
+                ' One record in fourteen carries no UDP port (port 0).',
         'trusted': ['enode.LogDist, netutil.DistinctNetSet/AddrIsLAN (re-modelled; compared on every snapshot)', 'operations are applied serially through the same handlers the table loop calls'],
         'assumptions': ['a revalidation answer carries a record of the node that was asked (the transport filters distance 0)'],
         'explanation': 'Tb.inv_reachable2: invariant by induction over all operation lists; snapshots of the real table equal the model after every operation; '
@@ -122,7 +125,8 @@ PROPS = {
         'rule': 'operation sequences (add found/inbound/forced-live, delete, revalidation timer, revalidation answers delivered in any order (dead / alive / alive with a new record), lookup feedback incl. runs of consecutive failures) against the real portalwire.Table with a fake transport and a simulated clock; node ids from pools of 34/90 keys so that buckets fill and ids repeat; addresses from three public /24s (one crowded in every fourth sequence), LAN, loopback and missing; sequence numbers 1..3; after every operation the full snapshot (entries with record/credit/verified flag/list, replacement order, per-bucket and table-wide /24 counters, fast/slow lists, active requests) must equal the model; non-trivial = the table held at least 8 entries; distinct = distinct operation lines among those'
                 ' A quarter of the records of known ids keep the address of the previous record and move only the port or only the sequence number.'
                 " Revalidation answers are described to the model by the SCRIPTED ping outcome; the implementation's own didRespond is an observation (reported=)."
-                ' Histories include v4-mapped addresses and sequence numbers at the ends of the 64-bit range (see C07).',
+                ' Histories include v4-mapped addresses and sequence numbers at the ends of the 64-bit range (see C07).'
+                ' Every seventh sequence begins with a node that collects 5..7 fruitless queries in a bucket of one, sees the bucket grow to five, and then answers a query: it stays.',
         'trusted': ['as C07'],
         'assumptions': ['as C07'],
         'explanation': 'per-step policy theorems (entry_leaves_only_if over all five operation kinds, successor, full_bucket_newcomer, record_change, credit_rule); '
@@ -140,7 +144,8 @@ PROPS = {
                 'node, cycles, empty answers and failing peers; the set of newly started queries after every release and the final result must '
                 'equal the model; plus the real ContentLookup over networks of 4..7 real protocol instances (chain/tree topologies, 0/1/2 holders, sizes 10..3000): found bytes must be bytes a peer supplied, not-found when nobody holds it, the call returns; non-trivial = at least two queries were in flight when the event happened / every content lookup; distinct = distinct event lines'
                 ' One (thorough 6) wide network of 31 real instances: the asker knows the 16 peers farthest from the content, only the three farthest of those name the 14 closer ones, the closest holds the content.'
-                " Three (thorough 12) real node lookups over the wire: asker A knows real peer B and 0 / 15 / 25 silent records that fill B's bucket (and its replacement list); B knows X of the same bucket; Lookup(X) must return at most 16 distinct sorted nodes, never A, and X first whenever B's FINDNODES answer names it (clause no_closer_seen_node_omitted).",
+                " Three (thorough 12) real node lookups over the wire: asker A knows real peer B and 0 / 15 / 25 silent records that fill B's bucket (and its replacement list); B knows X of the same bucket; Lookup(X) must return at most 16 distinct sorted nodes, never A, and X first whenever B's FINDNODES answer names it (clause no_closer_seen_node_omitted)."
+                ' In the synctest lookups a third of the named records are handed out as NEWER records of the same node (sequence numbers 1..4 depending on the answering peer).',
         'trusted': ['enode.DistCmp modelled as comparison of XOR distances (Nat)', 'Go select/goroutine scheduling controlled by testing/synctest'],
         'assumptions': ['after a simultaneous release+cancel the order in which the lookup sees them is not controlled: only the monitors apply from there on'],
         'explanation': 'theorems over all schedules and all answer functions (invariant, termination measure, result = closest 16 of seen); '
@@ -163,7 +168,8 @@ PROPS = {
                 '>=2 records; distinct = distinct lines'
                 ' Every other asker round runs with a NetRestrict allow-list containing the loopback and LAN ranges and half of the public addresses; each record is described with whether it is on the list.'
                 ' A third of the NODES cases go through the whole round trip (real findNodes: request encoded, sent over discv5 to a scripted peer that answers with the crafted message); request lists repeat a distance in a row with probability 1/5 per entry. Both scenarios run a second pass with metrics enabled.'
-                ' After each responder round six goroutines ask at once, each for ONE distance of its own (150 requests each; thorough 2000): every record of every reply lies at the distance that reply was asked for.',
+                ' After each responder round six goroutines ask at once, each for ONE distance of its own (150 requests each; thorough 2000): every record of every reply lies at the distance that reply was asked for.'
+                ' fnseeding: a node with the init check on and three silent boot nodes is asked for their distances while its first refresh is still under way - nothing is offered.',
         'trusted': ['enode.New (signature check), enode.LogDist, netutil.CheckRelayIP (rendered by address class and compared with the real function on every record), rlp, v5wire packet framing (size model Pk)'],
         'assumptions': ['request ids are at most 8 bytes (discv5)', 'NetRestrict is nil in the harness (the model keeps the clause)'],
         'explanation': 'theorems: nodes_rule, nodes_fits (datagram <= 1280 from the RLP size arithmetic), accept_only_if; the responder is checked as a '
@@ -183,7 +189,8 @@ PROPS = {
                 'equal bytes stored and no datagram may exceed 1280; non-trivial = table with more than 2 entries / every transfer; distinct = distinct lines'
                 ' Transfers where the serving side holds an OLDER record of the asker (sequence number 1) advertising another version list than the asker now does.'
                 " Transfers also carry values that look like a framed stream (varint length + that many bytes, once and twice nested), and two pairings serve through a slow log sink (300 ms on the line before the uTP accept is registered), so that the asker's SYN arrives first. The responder scenario runs a second, shorter pass with metrics enabled."
-                " Pinned stream ids: for ids 0, 1, 0xffff and a random one the harness plays the serving half (accept on recv=id+1/send=id, frame, write, close) and the asker's real reply processing takes the CONTENT message announcing that id.",
+                " Pinned stream ids: for ids 0, 1, 0xffff and a random one the harness plays the serving half (accept on recv=id+1/send=id, frame, write, close) and the asker's real reply processing takes the CONTENT message announcing that id."
+                " Two stalled transfers (the serving node's datagrams stop after twenty full ones) whose asker is shut down two seconds later: an error or the stored bytes, never other bytes. Pinned stream ids use a node pair of their own.",
         'trusted': ['utp-go (reliable ordered stream), v5wire framing; enode.LogDist; sort.Slice order among ties is taken from the implementation'],
         'assumptions': ['no packet loss in the quick tier'],
         'explanation': 'theorems found_small, found_large (with C19 symmetry and C15 framing), not_found, one_packet; step equality of the reply with the '
@@ -204,7 +211,8 @@ PROPS = {
                 'truncated streams; non-trivial = at least one key / one accepted item; distinct = distinct lines'
                 ' Life cycle of the in-flight mark: 40 (thorough 600) histories of 3-5 version-1 offers over a pool of 4 fresh in-range keys, each offer either from a peer that never connects (keys stay in flight) or from a real instance whose transfer ends at once (it dials the announced connection id and sends one item too many); every verdict is compared with the Ofl model.'
                 ' End-to-end offers name a key twice with probability 1/5 per position (other content); life-cycle histories mix version-0 and version-1 offers.'
-                ' Both scenarios run a second, shorter pass with go-ethereum metrics enabled (every `if metrics.Enabled()` branch live).',
+                ' Both scenarios run a second, shorter pass with go-ethereum metrics enabled (every `if metrics.Enabled()` branch live).'
+                ' Every fifth count case offers 64 keys (all accepted) with 63, 64, 65, 71 or 128 items in the stream.',
         'trusted': ['utp-go stream; go-bitfield and fastssz codecs of ACCEPT (C14); semaphore for slots'],
         'assumptions': ['overlapping offers are exercised back to back (second offer right behind the first reply), not truly in parallel'],
         'explanation': 'theorems verdict_count, accepted_only_if, connid_iff, pairing (+ codec round trips), count_mismatch_dropped; step equality of the '
@@ -225,7 +233,8 @@ PROPS = {
                 'node / every event; distinct = distinct lines'
                 ' One ping in eight announces a newer record than the one held and the record request then fails.'
                 " Content ids are scripted through the protocol's key-to-id function: a fifth are the bitwise complement of a table node's id (or differ from it in the last bit); an eighth of the cached radii equal the distance, an eighth are one above; 'covers' is computed by the harness from the XOR distance (not by the code's inRange). The gossip scenario runs a second pass with metrics enabled."
-                ' Radius histories run on a third node whose buckets have room, and take a further event: a FINDCONTENT answer of the closer-nodes kind from the peer (it may enter the table by it; the cache entry stays what it was).',
+                ' Radius histories run on a third node whose buckets have room, and take a further event: a FINDCONTENT answer of the closer-nodes kind from the peer (it may enter the table by it; the cache entry stays what it was).'
+                ' Every twelfth sequence of a member begins with a well-formed ClientInfo ping announcing a newer record (forced, not left to chance), another twelfth with a liveness ping of ours that the silent peer does not answer (event rpingfail: the cache entry stays).',
         'trusted': ['fastcache as a map (no eviction at these sizes); in-range test (C06) as observed by the real function'],
         'assumptions': ['ping payloads are processed in the order given (the handler processes them in fresh goroutines)'],
         'explanation': 'theorems gossip_rule (from the Allowed relation), radius_is_last_report (all report sequences), unknown_never_target; relation check on '
@@ -246,7 +255,8 @@ PROPS = {
                 " permitops lines are also judged by an exactly-once accounting on the implementation's own answers (a grant while `limit` are out, free + out != limit)."
                 ' Offers that cannot be sent (65-67 keys, a 2049+-byte key, no keys) and an accepting reply processed after Stop().'
                 " gossiprace: 4 callers x 1500 (thorough 20000) GossipAndReturnPeers next to one goroutine that keeps the offer queue full and one that keeps emptying it (slot limit 3000 > queue capacity); when all have stopped and the queue is empty every slot is free. Expected free-slot counts of every scripted outcome come from the model's exit table (Pm.outCalls / inCalls). A second pass runs with metrics enabled."
-                ' accepted_dial_unanswered: ACCEPTs naming connection ids 0, 1, 0xffff and a random one whose dial nobody answers - the slot is back when the sending goroutine gives up.',
+                ' accepted_dial_unanswered: ACCEPTs naming connection ids 0, 1, 0xffff and a random one whose dial nobody answers - the slot is back when the sending goroutine gives up.'
+                ' Twelve gossips to silent peers on a node with running workers (slot limit 96), the peers deleted from the table at once: every slot is back within 30 s.',
         'trusted': ['golang.org/x/sync/semaphore as a counter; utp-go'],
         'assumptions': ['RPC-initiated offers use NoPermit by design and are outside the bound', 'dial/read failures after an accepted offer wait for 15 s timeouts and are exercised in the thorough tier only'],
         'explanation': 'theorems held_le_limit, conservation, quiescent_full over all interleavings; step equality for the controller; "slot returned" monitors per outcome on the real code',
@@ -272,7 +282,8 @@ PROPS = {
                 'changes the store, and every bootstrap; distinct = distinct input lines among those'
                 ' A quarter of the branch corruptions zero the whole finality / next-committee branch.'
                 ' A quarter of the sequences start in the last 300 slots of periods 289, 565, 757 or 1052 and walk across the Altair / Bellatrix / Capella / Deneb activation (half of their updates are attested in the last two slots of the old fork and signed in the new one); corruption kind domain-other-fork: a genuine signature of the same signers under the fork version of the attested slot or of a neighbouring fork.'
-                ' Every committee has seats that share a key ({7,300},{10,11},{100,101,102},{511,0}); corruption shared-seat-signed-once: two participating seats share a key and the aggregate counts it once.',
+                ' Every committee has seats that share a key ({7,300},{10,11},{100,101,102},{511,0}); corruption shared-seat-signed-once: two participating seats share a key and the aggregate counts it once.'
+                ' One update in 25 is checked under a configuration whose genesis lies in the future (current slot 0).',
         'trusted': ['BLS12-381 (kilic via blsu) — as an abstraction: a signature is taken to be valid iff its bytes are intact, the signed message is the signing root '
                     'of the attested header under the fork version and genesis root given to verification, and the keys selected by the bits are the keys that signed',
                     'SSZ hash_tree_root of SyncCommittee (512 keys), ExecutionPayloadHeader and ExecutionBranch by zrnt; header roots, Merkle folds, domain and signing '
@@ -301,7 +312,8 @@ PROPS = {
                 'distinct = distinct lines'
                 ' Torn writes: for every cut that is a write to a write-ahead log file, 5 (thorough 9) further images in which only a prefix of the bytes of that write reached the file (unsynced data kept); every log write is among the cuts.'
                 ' Corpus histories replayed first (ids of one repeated byte, zero node id): a second prune that must empty the store after the radius has shrunk; one id put again and again, pruned, flushed and reopened; refused puts between accepted puts that land at, above and below the capacity; the counter at exactly 95 % of the capacity at a reopen; exactly at the capacity.'
-                ' The corpus run ends with the tiny-item history (single pruning passes of more than a thousand deletions) followed by a reopen.',
+                ' The corpus run ends with the tiny-item history (single pruning passes of more than a thousand deletions) followed by a reopen.'
+                ' corpusHugeCapacity: capacities 194176253409, 388352506817, 9126283910179, 18446744073709, 970881267037 and 2^40 MB, 2 MB of items, a restart: the radius is the maximum.',
         'trusted': ['pebble: atomic batches, loss of at most a suffix of unsynced batches (checked by the prefix relation on every run, not proved)', 'vfs.StrictMem gives the two extremes per cut (all unsynced kept / all dropped), not per-file mixtures'],
         'assumptions': ['sequential histories (one writer)', '32-byte ids'],
         'explanation': 'theorems: every image after every batch is consistent (crash_images_ok), reopen on a consistent image gives a store satisfying the full invariant, prunes when '
@@ -327,7 +339,8 @@ PROPS = {
                 'supplied by an oracle (empty/short cache, long/short/failing/absent oracle). Non-trivial = the case reached a Merkle comparison or an unchecked '
                 'table access (not a mere length error); distinct = distinct case lines among those'
                 " After copying a proof it was handed, the harness overwrites every node of it; the implementation's own proof is folded by the model's validator (clause honest_proof_verifies)."
-                ' Lagging oracle: the validator trusts the full summaries list, a rightly rejected proof beyond every summary makes it ask an oracle that knows fewer, the honest proofs are checked again.',
+                ' Lagging oracle: the validator trusts the full summaries list, a rightly rejected proof beyond every summary makes it ask an oracle that knows fewer, the honest proofs are checked again.'
+                ' embeddedagain: the embedded accumulator tables are loaded three more times and must equal what the first call returned.',
         'trusted': ['SHA-256 is an executable Lean function in the driver (lean/Shisui/Sha256.lean) compared against crypto/sha256, fastssz and zrnt through every root and verdict of the run',
                     'go-ethereum Header.Hash (keccak of the RLP) is taken from the implementation: the model works on (block number, header hash)',
                     'fastssz VerifyProof / zrnt VerifyMerkleBranch are re-modelled as Mk.fold; fastssz/ztyp merkleisation as Mk.build (compared on every accumulator of the run)',
@@ -372,7 +385,8 @@ PROPS = {
                 " Content is judged by an independent decoding (generated SSZ container, then go-ethereum rlp / UnmarshalBinary per field), never by the repository's Decode* helpers; field mutations include uncles / transaction / withdrawal / receipt fields that are not valid RLP at all and every single-bit flip of a short uncles field."
                 " Keys with bytes slipped in between selector and hash, hashes with a prefix, and a header source that serves this block's header whatever key is asked."
                 ' Synthetic blocks contain blob transactions; mutation f-tx-pool-form re-encodes a blob transaction of the body in its transaction-pool form (with an empty or a one-blob sidecar).'
-                ' Every value is also offered re-framed (all leading offsets raised by n = 1, 4, 32 with n stray bytes after the offset table); the oracle splits header-with-proof itself (first offset exactly 8) instead of with the generated decoder.',
+                ' Every value is also offered re-framed (all leading offsets raised by n = 1, 4, 32 with n stray bytes after the offset table); the oracle splits header-with-proof itself (first offset exactly 8) instead of with the generated decoder.'
+                ' A third of the getter look-ups are made by a node whose store advertises radius 1 (what it keeps, not what it believes).',
         'trusted': ['go-ethereum rlp / Header.Hash / DeriveSha / CalcUncleHash, the fastssz containers and the header-proof check of C03 are '
                     'parameters of the model (Hc.Env); the harness evaluates them once per case, outside the validator, and sends the results',
                     HASHES],
@@ -406,7 +420,8 @@ PROPS = {
                 'mutations per target. Non-trivial = at least two proof nodes (one link walked); distinct = distinct input lines among those'
                 " A third of the storage-node items are also offered under an account that has no storage (empty storage root) with that account's genuine proof."
                 " Mutation last-short-slice: the claimed node is a 1..31-byte slice of its parent's encoding (a third of the time its tail) and the key names the slice's hash."
-                ' Account tries with 31-, 30- and 16-byte keys: the proof for such a key offered (bytecode and storage-node items) for a 32-byte address hash that begins with it.',
+                ' Account tries with 31-, 30- and 16-byte keys: the proof for such a key offered (bytecode and storage-node items) for a 32-byte address hash that begins with it.'
+                ' concval: up to 600 sampled items are validated again by eight goroutines on ONE validator over a header source that sleeps 20 us: every verdict is the one the item got alone.',
         'trusted': [HASHES,
                     'ztyp SSZ decoding of key and value is not re-modelled: the harness serialises structured items with the repo\'s own Serialize methods; the '
                     'model takes the fields and the decoders\' limits (64 nibbles, 65 nodes, 1024-byte nodes, 32768-byte code)',
@@ -443,7 +458,8 @@ PROPS = {
                 'non-trivial = a value case, or a byte string that decodes; distinct = distinct input lines among those'
                 ' Retention: after each decode (and each encode) of a type, the object (bytes) produced by the PREVIOUS decode (encode) of that type is read again and must be unchanged.'
                 ' The four fork-tagged wrappers (2 values per fork) and LightClientUpdateRange (n = 0,1,2,3,5,128,129) are also run under configs.Minimal (sync committees of 32 keys).'
-                ' Byte-list limits of the history containers crossed with real values: one transaction of 2^24 / 2^24+1 bytes (legacy and Shanghai bodies), uncles of 2^17 / 2^17+1, one receipt of 2^24, 2^24+1, 20 MiB (thorough: 2^27, 2^27+1).',
+                ' Byte-list limits of the history containers crossed with real values: one transaction of 2^24 / 2^24+1 bytes (legacy and Shanghai bodies), uncles of 2^17 / 2^17+1, one receipt of 2^24, 2^24+1, 20 MiB (thorough: 2^27, 2^27+1).'
+                ' appendenc: every generated value is also encoded with MarshalSSZTo behind a three-byte prefix; what is appended must equal MarshalSSZ and the prefix must stay.',
         'trusted': ['fastssz helpers (DecodeDynamicLength, UnmarshalDynamic, DivideInt2, ValidateBitlist) and ztyp codec (Container, FixedLenContainer, List, '
                     'ByteList) are re-modelled in Lean from their source for the shapes shisui uses and compared with the real code on every case',
                     'the schemas in lean/Shisui/Ssz/Schemas.lean are transcribed by hand from struct tags and Marshal/Unmarshal bodies (no extractor in this '
